@@ -118,6 +118,33 @@ func (c02) Gen(tier string, seed int64) []fw.Unit {
 	}
 	us = append(us, collideUnits(r, "dm", "datamatrix", printAB, 24)...)
 	us = append(us, collideUnits(r, "dm", "datamatrix", allAB, 40)...)
+	for _, base := range []string{"hello", "12345678", "A1"} {
+		for _, d := range decorate([]byte(base)) {
+			add("decorated", d)
+		}
+	}
+	{
+		// value-directed: 10x10 symbols (3 data, 5 check codewords) whose check codewords
+		// begin with zero bytes
+		rr := rngFor(seed, "C02rszero")
+		found := [3]int{}
+		for tries := 0; tries < 2000000 && (found[1] < 10 || found[2] < 4); tries++ {
+			ct := randBytes(rr, 3, printAB)
+			if refdec.DMAsciiCodewords(ct) != 3 {
+				continue
+			}
+			data := []int{int(ct[0]) + 1, int(ct[1]) + 1, int(ct[2]) + 1}
+			rem := refdec.GF256D.RSCheck(data, 1, 5)
+			z := 0
+			for z < 2 && rem[z] == 0 {
+				z++
+			}
+			if z >= 1 && found[z] < 10 {
+				found[z]++
+				add(fmt.Sprintf("rs-check-leading-zeros-%d", z), ct)
+			}
+		}
+	}
 	for _, s := range []string{"", "0", "00", "000", "0a0", "\x00", "\x7f", "\x80", "\xff", "\xff\xff", "9\xff9", "\xc3\x28", "é", "12\x8034", "\x8012", "1\x802"} {
 		add("special", []byte(s))
 	}
